@@ -9,7 +9,7 @@ Translated / extracted from /repo on every run (fail closed):
      pack_/unpack_special_typing_primitive, as a function of (spec.type, spec.origin_type, spec.builder.cls);
      that the flags reach the emitted call is checked textually.
   3. The `spec.copy(...)` of the descent sites that re-enter the registry for a part of the type
-     (NewType -> supertype, Optional -> the non-None argument, collection -> element, Union -> member), pack and unpack side, as
+     (NewType -> supertype, Optional -> the non-None argument, collection -> element, Union -> member, tuple -> item, NamedTuple -> field, TypedDict -> key), pack and unpack side, as
      transformers of the spec namespace {type, origin_type, annotated_type, metadata}: `type=` sets type and
      origin_type (ValueSpec.__setattr__), `field_ctx=spec.field_ctx.copy(metadata={})` empties the metadata,
      `annotated_type=None` (not present today) would clear the alias; expression / could_be_none / owner do not
@@ -137,6 +137,18 @@ def _descend(name: str, call: ast.Call, registry: str, stmts) -> str:
     return f"Definition {name} (f_origin: kv -> kv) (a_child: kv) (v_spec: kv) : res kv :=\n  {body}.\n"
 
 
+def _descend_fn(name: str, fn: ast.FunctionDef, registry: str) -> str:
+    """every spec.copy of fn that re-enters the registry (tuple items, NamedTuple fields, TypedDict keys: one site
+    per shape of the container); all of them must translate to the same transformer"""
+    calls = [n for n in ast.walk(fn) if isinstance(n, ast.Call) and ast.unparse(n.func) == "spec.copy"]
+    if not calls:
+        raise Unsupported(f"{name}: no spec.copy in {fn.name}")
+    texts = {_descend(name, c, registry, fn.body) for c in calls}
+    if len(texts) != 1:
+        raise Unsupported(f"{name}: the {len(calls)} descent sites of {fn.name} differ")
+    return texts.pop()
+
+
 def _check_value_spec_class(cmod: ast.Module):
     cls = next((n for n in cmod.body if isinstance(n, ast.ClassDef) and n.name == "ValueSpec"), None)
     if cls is None:
@@ -233,6 +245,10 @@ def gen() -> str:
         if len(loops) != 1:
             raise Unsupported(f"{side} union: {len(loops)} loops over the union arguments")
         out += _descend(f"descend_{side}_member", _copy_call(loops[0].body, f"{side} union member"), reg, loops[0].body)
+        # items of a tuple, fields of a NamedTuple, keys of a TypedDict
+        out += _descend_fn(f"descend_{side}_tuple_item", find_function(mod, f"{side}_tuple"), reg)
+        out += _descend_fn(f"descend_{side}_named_field", find_function(mod, f"{side}_named_tuple"), reg)
+        out += _descend_fn(f"descend_{side}_typed_key", find_function(mod, f"{side}_typed_dict"), reg)
     out += "\n"
 
     # 4. fresh field specs
